@@ -118,6 +118,44 @@ def whole(pat, ty):
     return None
 
 
+_PRELUDE = {'std::prelude::v1::Ok': ('std::result::Result', 'Ok'), 'std::prelude::v1::Err': ('std::result::Result', 'Err'),
+            'std::prelude::v1::Some': ('std::option::Option', 'Some'), 'std::prelude::v1::None': ('std::option::Option', 'None'),
+            'Ok': ('std::result::Result', 'Ok'), 'Err': ('std::result::Result', 'Err'), 'Some': ('std::option::Option', 'Some'), 'None': ('std::option::Option', 'None')}
+
+
+def variant_of_pat(pat):
+    """(enum path, variant name) of a variant pattern, from its resolved constructor."""
+    while pat.get('k') in ('PRef', 'PBox', 'PDeref'):
+        pat = pat['p']
+    if pat.get('k') == 'Bind' and pat.get('sub'):
+        pat = pat['sub']
+    if pat.get('k') not in ('PTupleStruct', 'PStruct', 'PPath'):
+        return None
+    res = pat.get('res') or {}
+    path = res.get('path') or ''
+    if path in _PRELUDE:
+        return _PRELUDE[path]
+    rp = H.res_path(res)
+    if rp in _PRELUDE:
+        return _PRELUDE[rp]
+    if 'Variant' in (res.get('dk') or '') and '::' in rp:
+        return rp.rsplit('::', 1)[0], rp.rsplit('::', 1)[1]
+    return None
+
+
+def nested(pat):
+    """A one-field variant pattern that looks inside its field: (enum, variant, sub-pattern), else None."""
+    p = pat
+    while p.get('k') in ('PRef', 'PBox', 'PDeref'):
+        p = p['p']
+    if p.get('k') != 'PTupleStruct' or len(p.get('pats', [])) != 1 or p.get('dd') is not None:
+        return None
+    v = variant_of_pat(p)
+    if v is None or _irrefutable(p['pats'][0]):
+        return None
+    return v[0], v[1], p['pats'][0]
+
+
 def pattern_pred(pat, ty, earlier=()):
     """Predicate string for `subject matches pat`, given the whole-variant sets already taken by
     earlier unguarded arms of the same match (first-match semantics)."""
